@@ -3,10 +3,12 @@
    (Core.Syntax is imported last there, so `TTuple` is the assignment target and `TyTuple` the tuple type). *)
 From Coq Require Import ZArith String List Bool.
 From SV Require Import Core.Syntax Ty.Spec Ty.Model Typing.Model.
+From SV Require Extracted.TypingC.
 Import ListNotations.
 
-(* (types of all bindings of the wrapped program, approximation flag) of the code as it is (fixmul = false) *)
-Definition run_case (sigs : sigmap) (prog : list stmt) : tmap * bool := solve false sigs prog.
+(* (types of all bindings of the wrapped program, approximation flag) of the code as it is: the rule for `int * Any` is the one
+   the translator finds in values/types/num/typecheck.rs on this run (fixmul = TypingC.int_mul_any_is_any) *)
+Definition run_case (sigs : sigmap) (prog : list stmt) : tmap * bool := solve Extracted.TypingC.int_mul_any_is_any sigs prog.
 
 (* the expression oracle used by the search: type of one closed expression *)
-Definition run_expr (e : expr) : ires := infer false [] [] e.
+Definition run_expr (e : expr) : ires := infer Extracted.TypingC.int_mul_any_is_any [] [] e.
